@@ -1,4 +1,6 @@
 import UralModel.Lemmas.LinksFromHtml
+import UralModel.Model.UrlsFromHtml
+import UralModel.Gen.HtmlPatterns
 /-!
 # C17 — HTML extraction is str/bytes-independent; links are followable and distinct
 
@@ -230,5 +232,61 @@ example : shouldFollowHref toy (s " HTTPS://a.com") = true ∧ shouldFollowHref 
     shouldFollowHref toy (s "/a/b") = true ∧ shouldFollowHref toy (s "\u00a0") = false := by decide
 
 end Examples
+
+/-! ## Table obligations on the regenerated regexes (re-checked after every regeneration) -/
+
+section Tables
+open Ural.Gen.Html
+
+/-- every character / position test of the four regexes of urls_from_html.py is
+ASCII-determined: literals and set members are ASCII, `\s` and `\b` are the ASCII ones
+because the `str` regexes are compiled with `re.ASCII` (and none with `re.LOCALE`); this is
+what makes a non-ASCII character and each of its UTF-8 bytes indistinguishable for them -/
+theorem html_patterns_ascii_determined :
+    urlInHtml.asciiDetermined reASCII reLOCALE reUNICODE = true ∧
+    urlInHtmlBinary.asciiDetermined reASCII reLOCALE reUNICODE = true ∧
+    scriptTag.asciiDetermined reASCII reLOCALE reUNICODE = true ∧
+    scriptTagBinary.asciiDetermined reASCII reLOCALE reUNICODE = true := by decide
+
+/-- the four regexes are case-insensitive, the `str` ones are `re.I | re.ASCII`, and they are
+the regexes for `str` (resp. `bytes`) documents -/
+theorem html_patterns_flags :
+    hasFlag urlInHtml.flags reIGNORECASE = true ∧ hasFlag urlInHtml.flags reASCII = true ∧
+    hasFlag scriptTag.flags reIGNORECASE = true ∧ hasFlag scriptTag.flags reASCII = true ∧
+    hasFlag urlInHtmlBinary.flags reIGNORECASE = true ∧
+    hasFlag scriptTagBinary.flags reIGNORECASE = true ∧
+    urlInHtml.isBytes = false ∧ scriptTag.isBytes = false ∧
+    urlInHtmlBinary.isBytes = true ∧ scriptTagBinary.isBytes = true := by decide
+
+/-- the `bytes` regexes are the `str` regexes encoded: same pattern, same tests -/
+theorem html_patterns_twins :
+    urlInHtmlBinary.pattern = urlInHtml.pattern ∧ urlInHtmlBinary.classes = urlInHtml.classes ∧
+    urlInHtmlBinary.ats = urlInHtml.ats ∧ urlInHtmlBinary.groups = urlInHtml.groups ∧
+    scriptTagBinary.pattern = scriptTag.pattern ∧ scriptTagBinary.classes = scriptTag.classes ∧
+    scriptTagBinary.ats = scriptTag.ats := by decide
+
+/-- the tests of the patterns are the ones the hand-written scanners make, in the same order:
+`<a`, `[^>]`, `\s`, `href=`, the two quoted alternatives, `[^\s>]`, `[^>]`, `>`; and
+`<script`, `\b`, `[^<]`, `</script>`, `<`, `[^<]`, `</script>` -/
+theorem html_patterns_shape :
+    urlInHtml.classes =
+      litA.map .lit ++ [.notLit 62, .set false [.cat "CATEGORY_SPACE"]] ++ litHref.map .lit ++
+        [.lit 34, .notLit 34, .lit 34, .lit 39, .notLit 39, .lit 39,
+         .set true [.cat "CATEGORY_SPACE", .ch 62], .notLit 62, .lit 62] ∧
+    urlInHtml.ats = [] ∧ urlInHtml.groups = 3 ∧
+    scriptTag.classes =
+      litScriptOpen.map .lit ++ [.notLit 60] ++ litScriptClose.map .lit ++ [.lit 60, .notLit 60] ++
+        litScriptClose.map .lit ∧
+    scriptTag.ats = ["AT_BOUNDARY"] := by decide
+
+/-- `HTTP_PROTOCOL_RE` of should_follow_href.py is `^https?://` compiled case-insensitive and
+Unicode-aware (which is why `httpProtocolMatch` lets U+017F stand for `s`) -/
+theorem http_protocol_shape :
+    httpProtocol.classes = [104, 116, 116, 112, 115, 58, 47, 47].map .lit ∧
+    httpProtocol.ats = ["AT_BEGINNING"] ∧ httpProtocol.isBytes = false ∧
+    hasFlag httpProtocol.flags reIGNORECASE = true ∧ hasFlag httpProtocol.flags reUNICODE = true ∧
+    hasFlag httpProtocol.flags reASCII = false := by decide
+
+end Tables
 
 end Ural.Props.C17
